@@ -71,8 +71,8 @@ package fsm
 // the stored form of a key as a byte-string value: enc_t(k) = [1,0,0,0][t] ++ k (definitional axioms)
 //@ uninterp func encK(t Int, k Bytes) Bytes
 //@ axiom forall t Int, k Bytes :: blen(encK(t, k)) == 5 + blen(k)
-//@ axiom forall t Int, k Bytes, i Int :: 0 <= i && i < 5 + blen(k) ==> bat(encK(t, k), i) == (i == 0 ? 1 : (i < 4 ? 0 : (i == 4 ? t : bat(k, i - 5))))
-//@ axiom forall t Int, k Bytes :: bat(encK(t, k), 4) == t
+//@ axiom forall t Int, k Bytes, i Int :: 0 <= t && t < 256 && 0 <= i && i < 5 + blen(k) ==> bat(encK(t, k), i) == (i == 0 ? 1 : (i < 4 ? 0 : (i == 4 ? t : bat(k, i - 5))))
+//@ axiom forall t Int, k Bytes :: 0 <= t && t < 256 ==> bat(encK(t, k), 4) == t
 // the bookkeeping entries of a view are untouched between two states
 //@ pure func bookSame(p1 map[Bytes]Bool, v1 map[Bytes]Bytes, p0 map[Bytes]Bool, v0 map[Bytes]Bytes) bool = p1[IDX()] == p0[IDX()] && v1[IDX()] == v0[IDX()] && p1[LIDX()] == p0[LIDX()] && v1[LIDX()] == v0[LIDX()]
 
